@@ -14,11 +14,11 @@ COMP_CURVE = ('If(t >= T_ + W_/2, T_ + (t - T_)/ToReal(R_) - t, '
 LIM_CURVE = ('If(t >= T_ + W_/2, T_ - t, '
              'If(And(t > T_ - W_/2, t < T_ + W_/2), -((t - T_ + W_/2)*(t - T_ + W_/2)) / (2*W_), 0))')
 
-fn('dsplib::Compressor::_compute_gain', D, serves=['C20', 'C05'], pure=True, extra_env=LIBM,
+fn('dsplib::Compressor::_compute_gain', D, serves=['C20'], pure=True, extra_env=LIBM,
    requires=[('params', 'And(R_ >= 1, R_ <= 50, W_ >= 0, W_ <= 20)')],
    ensures=[('static_curve', 'exists_w(lambda t: result == %s, xdb)' % COMP_CURVE),
             ('never_amplifies', 'result <= 0')])
-fn('dsplib::Limiter::_compute_gain', D, serves=['C20', 'C05'], pure=True, extra_env=LIBM,
+fn('dsplib::Limiter::_compute_gain', D, serves=['C20'], pure=True, extra_env=LIBM,
    requires=[('params', 'And(W_ >= 0, W_ <= 20)')],
    ensures=[('static_curve', 'exists_w(lambda t: result == %s, xdb)' % LIM_CURVE),
             ('never_amplifies', 'result <= 0'),
